@@ -339,6 +339,8 @@ def e2e_case(draw, broker):
     # the worker's first look-up of the argument bucket fails (a transient storage error): whatever the worker does with that
     # delivery, the actor is never called with anything but the job's arguments, and a later delivery still carries them
     c["bucket_fault"] = draw(st.integers(0, 3)) == 0
+    # a priority outside the three named levels (a routing key accepts any non-negative integer; the broker API takes routing keys)
+    c["raw_prio"] = draw(st.sampled_from([None, None, None, None, 1, 10, 42, 255]))
     if broker != "mem":
         c["lat"] = draw(st.lists(st.sampled_from([0.0, 0.001]), max_size=6))
     return c
@@ -353,6 +355,30 @@ async def _e2e(loop, c, out: Outcome):
     await conn.connect()
     await asyncio.sleep(c["phase_us"] / 1e6)
     await Queue(c["queue"], _connection=conn).declare()
+    if c.get("raw_prio") is not None:
+        from repid.data._key import RoutingKey
+        from repid.data._parameters import Parameters
+
+        key0 = RoutingKey(topic=c["name"], queue=c["queue"], priority=c["raw_prio"], id_=c["id"])
+        p0 = Parameters()
+        await conn.message_broker.enqueue(key0, '{"x": 1}', p0)
+        cons0 = conn.message_broker.get_consumer(c["queue"], None, None, MessageCategory.NORMAL)
+        await cons0.start()
+        try:
+            k0, pl0, pr0 = await asyncio.wait_for(cons0.consume(), timeout=3.0)
+        except asyncio.TimeoutError:
+            # (Redis keeps one list per priority and polls the three named levels only: another level is simply never looked at -
+            #  nothing is delivered wrongly, and delivery of unnamed levels is not this property's business)
+            out.cls("raw-priority-not-polled")
+            await cons0.finish()
+            return
+        if (k0.id_, k0.topic, k0.queue, k0.priority) != (key0.id_, key0.topic, key0.queue, key0.priority) or pl0 != '{"x": 1}' or pr0 != p0:
+            out.v("consumed-key", f"enqueued {key0} with payload {{\"x\": 1}}, consumed {k0} {pl0!r}", broker=c["broker"], raw_priority=True)
+        await conn.message_broker.ack(k0)
+        await cons0.finish()
+        out.nontrivial = True
+        out.cls("broker-" + c["broker"], "raw-priority")
+        return
     args = None if c["args"] is None else materialise(c["args"])
     now = vclock.VDateTime.now()
     kw: dict = {"name": c["name"], "queue": c["queue"], "priority": PrioritiesT(c["prio"]), "id_": c["id"], "retries": c["retries"],
